@@ -349,5 +349,15 @@ func (p *Program) Field(typeName, field string) *types.Var {
 			return st.Field(i)
 		}
 	}
+	// a field promoted from an embedded struct (fields grouped into an unexported struct keep their selectors)
+	var pkg *types.Package
+	if n, isN := interface{}(nt).(*types.Named); isN && n.Obj() != nil {
+		pkg = n.Obj().Pkg()
+	}
+	if obj, _, _ := types.LookupFieldOrMethod(nt, true, pkg, field); obj != nil {
+		if v, isVar := obj.(*types.Var); isVar && v.IsField() {
+			return v
+		}
+	}
 	return nil
 }
